@@ -77,6 +77,25 @@ def lean_build(targets=None, timeout=3000):
         lock.close()
 
 
+def write_generated(name: str, content: str):
+    """(Re)write lean/DaskArrayModel/Generated/<name>.lean from a translator, only when its
+    content changed (keeps the no-op build fast).  Taken under the build lock so that
+    concurrent checks never observe a half-written table."""
+    d = LEAN / "DaskArrayModel" / "Generated"
+    d.mkdir(exist_ok=True)
+    f = d / f"{name}.lean"
+    lock = open(LEAN / ".build.lock", "w")
+    fcntl.flock(lock, fcntl.LOCK_EX)
+    try:
+        if not f.exists() or f.read_text() != content:
+            f.write_text(content)
+            return True
+        return False
+    finally:
+        fcntl.flock(lock, fcntl.LOCK_UN)
+        lock.close()
+
+
 def prop_theorems(pid: str):
     """Theorem names declared in Props/<pid>.lean (comments stripped)."""
     f = LEAN / "DaskArrayModel" / "Props" / f"{pid}.lean"
@@ -113,7 +132,12 @@ def forbidden_scan():
 def lean_audit(pid: str, tier: str):
     """Returns dict(obligations, discharged, broken:[...], axioms:{thm:[..]}, log)."""
     res = {"obligations": 0, "discharged": 0, "broken": [], "axioms": {}, "log": ""}
-    ok, log = lean_build()
+    # build only this property's theorems (and the driver): a table generated for another
+    # property that no longer checks must not break this one
+    targets = ["driver"]
+    if (LEAN / "DaskArrayModel" / "Props" / f"{pid}.lean").exists():
+        targets.insert(0, f"DaskArrayModel.Props.{pid}")
+    ok, log = lean_build(targets)
     res["log"] = log[-4000:]
     thms = prop_theorems(pid)
     res["obligations"] = len(thms)
@@ -253,6 +277,7 @@ class Ctx:
         self.exhaustive = False
         self.rule = ""
         self._driver = None
+        self.audit = {}
 
     # budget helpers
     def scale(self, quick, thorough):
@@ -417,7 +442,14 @@ def main_for(pid, run_fn):
     seed = int(os.environ.get("VERIF_SEED", "0") or 0)
     ctx = Ctx(pid, tier, seed)
     try:
+        import importlib
+
+        mod = importlib.import_module(f"harness.props.{pid}")
+        if hasattr(mod, "translate"):
+            # step 1 of the verdict logic: regenerate Generated/*.lean from /repo's working tree
+            mod.translate(ctx)
         audit = lean_audit(pid, tier)
+        ctx.audit = audit
         if args.replay:
             ctx.extra["replay_of"] = args.replay
             run_fn(ctx, replay=json.loads(Path(args.replay).read_text()))
